@@ -78,3 +78,63 @@ func verifC07Atomic() {
 	vObserve("len", int64(len(sink.log)))
 	vWitness("c07atomic-end")
 }
+
+// verifC07Sequence: nrec records with distinct symbolic contents are all accepted while the
+// writer goroutine is stalled (all pending in the queue at once); after Close the sink holds
+// exactly those records, each intact, in the order written.
+func verifC07Sequence() {
+	runtime.GOMAXPROCS(1)
+	nrec := vParam("nrec", 3)
+	which := vRange("writer", 0, 1)
+	nsamp := vParam("nsamp", 2)
+	sink := &c07Sink{}
+	aw := asyncbufio.NewWriter(sink, 4*nrec, time.Hour)
+	frames := make([]int64, nrec)
+	tss := make([]int64, nrec)
+	datas := make([][]uint16, nrec)
+	var w2 *Writer
+	var w3 *Writer3
+	if which == 0 {
+		w2 = &Writer{Samples: nsamp, SubframeDivisions: 1, HeaderWritten: true, writer: aw}
+	} else {
+		w3 = &Writer3{HeaderWritten: true, writer: aw}
+	}
+	for k := 0; k < nrec; k++ {
+		ks := string(rune('0' + k))
+		frames[k], tss[k] = vSymI64("frame"+ks), vSymI64("ts"+ks)
+		datas[k] = make([]uint16, nsamp)
+		for i := range datas[k] {
+			datas[k][i] = vSymU16("d" + ks + string(rune('a'+i)))
+		}
+		var err error
+		if which == 0 {
+			err = w2.WriteRecord(frames[k], tss[k], datas[k])
+		} else {
+			err = w3.WriteRecord(1, frames[k], tss[k], datas[k])
+		}
+		vCheck(err == nil, "a record is accepted while the queue has room")
+	}
+	aw.Close()
+	recsize, o := 16+2*nsamp, 0
+	if which == 1 {
+		recsize, o = 24+2*nsamp, 8
+	}
+	vCheck(len(sink.log) == nrec*recsize, "the file holds whole records only")
+	if len(sink.log) == nrec*recsize {
+		for k := 0; k < nrec; k++ {
+			b := sink.log[k*recsize : (k+1)*recsize]
+			var f, t uint64
+			for j := 7; j >= 0; j-- {
+				f = f<<8 | uint64(b[o+j])
+				t = t<<8 | uint64(b[o+8+j])
+			}
+			vCheck(int64(f) == frames[k], "record k of the file carries the k-th accepted record's frame field")
+			vCheck(int64(t) == tss[k], "record k of the file carries the k-th accepted record's time stamp")
+			for i := 0; i < nsamp; i++ {
+				vCheck(uint16(b[recsize-2*nsamp+2*i])|uint16(b[recsize-2*nsamp+2*i+1])<<8 == datas[k][i], "record k of the file carries the k-th accepted record's samples")
+			}
+		}
+	}
+	vObserve("len", int64(len(sink.log)))
+	vWitness("c07sequence-end")
+}
